@@ -17,7 +17,8 @@
     or_ / not_ (injected through a PyToPy subclass overriding get_extra_locals) check the contract at every
     dynamic invocation and then delegate to the real operator (with callbacks that read the state again after they ran: the
     getter must stay total while the operator runs); a second run emulates a functional
-    backend for `if` (non-outputs are reset to their initial values) to judge "outputs first".
+    backend for `if` (non-outputs are reset to their initial values) to judge "outputs first".  A composite symbol name
+    must be resolved through names that are bound in the calling function at the call (it denotes a variable of that function).
 """
 import ast
 import importlib.util
@@ -281,6 +282,74 @@ def gen_closure(rnd):
     return '\n'.join(L) + '\n'
 
 
+# index expressions of stream 'indices': (binding of the base name or None for a parameter, the index, containers it is a
+# valid index of for a plain store, containers in which the item exists at entry)
+INDEX_FORMS = [
+    ('p = S(%d)', 'p.i', 'med', 'me'),            # attribute of a record: 0..3
+    ('j = 0', 'd[j]', 'med', 'me'),               # item of a dict indexed by a name: d[0] == 1
+    ('p = S(%d)', 'e[p.i]', 'ed', ''),            # item indexed by an attribute: 10..13, a fresh key
+    ('j = %d %% 4', 'm[j]', 'ed', ''),            # item of a list: 5..8, a fresh key
+    (None, 'o.u', 'ed', ''),                      # attribute of a parameter: 9, a fresh key
+    (None, 'd[0]', 'med', 'me'),                  # literal index inside the index: 1
+]
+
+
+def gen_indexed(rnd):
+    """stream 'indices': a store to an item whose INDEX is itself composite -- an attribute (t[p.i]), an item (t[d[j]]) or
+    both (t[e[p.i]]) -- in the body of an if / while / for (alone or inside another loop).  The base name of the index is
+      'inside'  first bound by the first statement of that very body: it is a local of the generated body function, the item
+                is then no variable of the enclosing function and cannot be part of the statement's state;
+      'before'  bound before the statement: the item is a state variable resolved through the enclosing function's name;
+      'param'   a parameter of the function.
+    A conditional nested in the body may store to the same item again (there the base name is bound in its caller)."""
+    k = [0]
+
+    def K():
+        k[0] += 1
+        return k[0]
+    bind, index, valid, existing = rnd.choice(INDEX_FORMS)
+    cont = rnd.choice(valid)
+    where = 'param' if bind is None else rnd.choice(['inside', 'inside', 'before'])
+    if bind is not None and '%d' in bind:
+        bind = bind % K()
+    item = '%s[%s]' % (cont, index)
+    x = rnd.choice(['x', 'y', 'z', 'w'])
+    L = ['def f(a, b, c, m, o, d, e):', '    %s = T(%d, a)' % (x, K())]
+    ind = '    '
+    wrap = rnd.choice(['', '', '', 'while', 'for'])
+    if wrap == 'while':
+        L.append(ind + 'while D(%d):' % K())
+        ind += '    '
+    elif wrap == 'for':
+        L.append(ind + 'for i1 in L(%d):' % K())
+        ind += '    '
+    if where == 'before':
+        L.append(ind + bind)
+    kind = rnd.choice(['if', 'while', 'for'])
+    if kind == 'if':
+        L.append(ind + 'if D(%d):' % K())
+    elif kind == 'while':
+        L.append(ind + 'while D(%d, %s):' % (K(), x))
+        if rnd.random() < 0.3:
+            L.append(ind + '    %s(maximum_iterations=%s)' % (DIRECTIVE, rnd.choice(['3', 'K1'])))
+    else:
+        L.append(ind + 'for i2 in L(%d):' % K())
+    b = ind + '    '
+    if where == 'inside':
+        L.append(b + bind)
+    op = rnd.choice(['=', '=', '+=']) if cont in existing else '='
+    stores = [b + '%s %s T(%d, %s)' % (item, op, K(), x), b + '%s = T(%d, %s)' % (x, K(), x)]
+    if rnd.random() < 0.5:
+        stores.reverse()
+    L += stores
+    if rnd.random() < 0.4:
+        L += [b + 'if D(%d):' % K(), b + '    %s = T(%d, %s)' % (item, K(), x)]
+    if kind == 'if' and rnd.random() < 0.3:
+        L += [ind + 'else:', ind + '    %s = T(%d)' % (x, K())]
+    L.append('    return T(%d, %s)' % (K(), x))
+    return '\n'.join(L) + '\n'
+
+
 CORPUS = [
     # (stream, source) -- hand-written shapes that must always be exercised
     ('main', "def f(a, b, c, m, o, d, e):\n    x = 0\n    if D(1):\n        d['k'] = T(2)\n        o.v = T(3)\n        x = x + 1\n    for y in L(4):\n        " + DIRECTIVE + "(maximum_iterations=3)\n        x += y\n        if D(5, x):\n            break\n    while D(6):\n        " + DIRECTIVE + "(parallel_iterations=K1, swap_memory=True)\n        x += 1\n        for z in L(7):\n            " + DIRECTIVE + "(maximum_iterations=K2)\n            o.v += z\n    return T(8, x)\n"),
@@ -295,6 +364,10 @@ CORPUS = [
     # in a loop body; later statements carry the (rebound-to-Undefined) names in their state
     ('deletes', "def f(a, b, c, m, o, d, e):\n    x = T(1)\n    y = T(2)\n    if D(3):\n        del x\n    else:\n        del m[0], y\n    if D(4):\n        x = T(5)\n    if D(6):\n        y = T(7)\n    return T(8, x, y)\n"),
     ('deletes', "def f(a, b, c, m, o, d, e):\n    x = T(1)\n    y = T(2)\n    while D(3):\n        if D(4):\n            del x, d['k'], y\n        else:\n            x = T(5)\n    for z in L(6):\n        del o.u, z\n    return T(7, x, y)\n"),
+    # items whose index is composite: base name of the index bound inside the body (the item is a local matter of the body) /
+    # before the statement (the item is a state variable) / both in one program, list and dict containers
+    ('indices', "def f(a, b, c, m, o, d, e):\n    x = T(1, a)\n    for i2 in L(2):\n        p = S(3)\n        e[p.i] = T(4, x)\n        x = T(5, x)\n        if D(6):\n            e[p.i] = T(7, x)\n    return T(8, x)\n"),
+    ('indices', "def f(a, b, c, m, o, d, e):\n    x = T(1, a)\n    p = S(2)\n    j = 0\n    while D(3, x):\n        m[p.i] += T(4, x)\n        e[d[j]] = T(5, x)\n        x = T(6, x)\n    if D(7):\n        j = 0\n        m[d[j]] = T(8)\n    return T(9, x)\n"),
     ('missing', "def f(a, b, c, m, o, d, e):\n    if D(1):\n        d['j'] = T(2)\n    if D(3):\n        o.w = T(4)\n    return T(5)\n"),
     ('order', "def f(a, b, c, m, o, d, e):\n    x = 0\n    while D(1):\n        e[x] = T(2, x)\n        x = x + 1\n    return T(3, x)\n"),
 ]
@@ -325,6 +398,16 @@ class Obj(object):
 
     def __repr__(self):
         return 'Obj(%s)' % ', '.join('%s=%r' % kv for kv in sorted(self.__dict__.items()))
+
+
+class Slot(object):
+    """record the programs of stream 'indices' create (S(k)): .i is an index of the list m and a key of the dict e"""
+
+    def __init__(self, k):
+        self.i = k % 4
+
+    def __repr__(self):
+        return 'Slot(i=%r)' % (self.i,)
 
 
 class Sentinel(dict):
@@ -476,6 +559,30 @@ class Monitor(object):
                 return True
         return False
 
+    def unbound_support(self, names, frame):
+        """(symbol name, simple name) for every composite symbol name that is resolved through a simple name which is unbound
+        in the caller when the operator is called (no binding at all, or the ag__.Undefined placeholder of a variable that
+        is not assigned yet): such a name denotes no variable of the enclosing function.  The generated programs read
+        definitely assigned names only, so a support symbol that is a variable of the enclosing function is bound here."""
+        out = []
+        for nm in names:
+            if nm.isidentifier():
+                continue
+            try:
+                e = ast.parse(nm, mode='eval')
+            except SyntaxError:
+                continue
+            for x in ast.walk(e):
+                if isinstance(x, ast.Name) and (nm, x.id) not in out:
+                    try:
+                        v = eval(x.id, frame.f_globals, frame.f_locals)
+                    except NameError:
+                        out.append((nm, x.id))
+                        continue
+                    if self.is_undef(v):
+                        out.append((nm, x.id))
+        return out
+
     def is_prev_iteration_local(self, exc, frame, names):
         """classifier of the known finding: the getter raised NameError / UnboundLocalError for a simple state
         variable v that (1) is a local variable of the generated loop-body function that issues the operator call
@@ -558,6 +665,12 @@ class Monitor(object):
             ok = False
         if not ok:
             return None
+        # every symbol name denotes a variable of the enclosing function: the names a composite is resolved through are bound there
+        unresolved = self.unbound_support(names, frame)
+        for nm, sup in unresolved:
+            self.fail('%s: symbol name %s does not denote a variable of the enclosing function (%s, through which it is '
+                      'resolved, is unbound there when the operator is called)' % (op, nm, sup),
+                      dict(detail, symbol=nm, unbound_support=sup))
         before = self.snapshot()
         try:
             g1 = get_state()
@@ -596,7 +709,8 @@ class Monitor(object):
         if nouts is not None:
             if not (isinstance(nouts, int) and not isinstance(nouts, bool) and 0 <= nouts <= n):
                 self.fail('%s: nouts=%r is not within 0..%d' % (op, nouts, n), detail)
-        classify_missing = KNOWN_MISSING if missing else None
+        # the known finding is about a key / attribute that does not exist yet in an object the name really designates
+        classify_missing = KNOWN_MISSING if missing and not (set(missing) & {nm for nm, _ in unresolved}) else None
         d2 = dict(detail, missing_composites=missing)
         saved = self.save_containers()
         # wrong-length tuples are rejected
@@ -991,7 +1105,7 @@ class _Conv(object):
                     if isinstance(k, Sentinel) or not isinstance(k, (int, str)):
                         raise _Unexportable('key')
                     out.append('(%d, KItem %s, %s)' % (i, self.value(k), self.value(v)))
-            elif isinstance(o, Obj):
+            elif isinstance(o, (Obj, Slot)):
                 for k, v in sorted(o.__dict__.items()):
                     out.append('(%d, KAttr %s, %s)' % (i, vlib.coq_str(k), self.value(v)))
             i += 1
@@ -1428,6 +1542,7 @@ def run_fn(h, mod, fn, decisions, monitor=None):
     for nm in ('D', 'L', 'T'):
         g[nm] = h.api.do_not_convert(g[nm])
     mod.__dict__.update(g)
+    mod.__dict__['S'] = h.api.do_not_convert(lambda k: Slot(k))
     mod.__dict__['G'] = 0
     for nm in progs.VARS:
         mod.__dict__.pop(nm, None)
@@ -1457,7 +1572,11 @@ def check(run):
                 'the outer handler catches (stream "tries"), local closures over a state variable called by the statement that rebinds it '
                 '(stream "closures"), `del` statements inside branches / loop bodies deleting names, composites and both mixed in one '
                 'statement, every variable read at the end (stream "deletes"; each del statement is also a static case of the model '
-                'of visit_Delete), composite state (o.v, d[\'k\'], d[0]; stream '
+                'of visit_Delete), stores to items whose index is itself composite (t[p.i], t[d[j]], t[e[p.i]], t[m[j]], t[o.u]; list and '
+                'dict containers; the base name of the index first bound inside the very body that stores / before the statement / '
+                'a parameter; stream "indices": every composite symbol name must be resolved through names that are bound in the '
+                'enclosing function when the operator is called, and the model checks on every converted statement that the support '
+                'symbols of an admitted composite are live into it), composite state (o.v, d[\'k\'], d[0]; stream '
                 '"missing": o.w / d[\'j\'] unset at entry; stream "order": e[x] with x reassigned) and set_loop_options '
                 'directives as first loop statement; each converted with instrumented operators (contract checked on entry; the '
                 'state is read again after every branch / iteration, as a staging operator does) and run under several '
@@ -1477,8 +1596,8 @@ def check(run):
 
     rnd = random.Random(run.seed)
     h = Harness(run)
-    nprog = ({'main': 290, 'missing': 50, 'order': 50, 'scopes': 60, 'tries': 40, 'closures': 40, 'deletes': 60} if not thorough else
-             {'main': 1200, 'missing': 200, 'order': 200, 'scopes': 250, 'tries': 250, 'closures': 250, 'deletes': 300})
+    nprog = ({'main': 290, 'missing': 50, 'order': 50, 'scopes': 60, 'tries': 40, 'closures': 40, 'deletes': 60, 'indices': 60} if not thorough else
+             {'main': 1200, 'missing': 200, 'order': 200, 'scopes': 250, 'tries': 250, 'closures': 250, 'deletes': 300, 'indices': 300})
     nvec = 3 if not thorough else 5
     programs = list(CORPUS) + corpus_files()
     for stream in ('main', 'missing', 'order', 'scopes'):
@@ -1490,6 +1609,8 @@ def check(run):
         programs.append(('closures', gen_closure(rnd)))
     for _ in range(nprog['deletes']):          # appended last: the random streams of the other programs stay what they were
         programs.append(('deletes', gen_program(rnd, 'deletes')))
+    for _ in range(nprog['indices']):
+        programs.append(('indices', gen_indexed(rnd)))
     failures = []      # (what, replay dict, classify)
     scope_checked = {'functions': 0, 'statements': 0, 'failures': 0}
     conv_errors = 0
